@@ -28,6 +28,13 @@ starts at `MAX_EXPANDED_LINES` and there are at most `MAX_EXPANSION_PASSES` pass
 theorem expand_pass_bounded (b : Nat) (ls out : List Line) (b' : Nat) (h : onePass b ls = .ok (out, b')) :
     out.length + b' ≤ ls.length + b := onePass_budget b ls out b' h
 
+/-- what "bounded" means with the limits the code declares **now** (regenerated on every run): at most
+10 passes, at most 10^6 lines produced by loop expansion, and a nesting limit under which the measured
+doubling of the pest recogniser's backtracking per bracket level stays below 2^16 steps. Raising a
+limit beyond that breaks this obligation (the nesting limit was 24 on the unchanged tree: ~15 s). -/
+theorem limits_bound_the_work :
+    MAX_EXPANSION_PASSES ≤ 10 ∧ MAX_EXPANDED_LINES ≤ 1000000 ∧ 2 ^ MAX_NESTING_DEPTH ≤ 65536 := by decide
+
 /-- `preprocess_indentation` never panics (the indent stack is never empty, `usize` subtractions do not underflow) -/
 theorem indent_total (src : Text) : ∃ out, preprocessC src = .ok out := preprocessC_ok src
 
